@@ -319,11 +319,11 @@ but no other interpretation is applied
                 #
                 # Replace " " within quoted strings with \1 (this takes care of cmd(..., " ") too)
                 #
-                args = re.sub(r"(\"[^\"]+\")", lambda s: re.sub(" ", "\1", s.group(0)), args)
+                args = re.sub(r"(\"[^\"]*\")", lambda s: re.sub(" ", "\1", s.group(0)), args)
                 #
                 # Replace , within quoted strings with "\003"
                 #
-                args = re.sub(r"(\"[^\"]+\")", lambda s: re.sub(",", "%c" % 3, s.group(0)), args)
+                args = re.sub(r"(\"[^\"]*\")", lambda s: re.sub(",", "%c" % 3, s.group(0)), args)
 
                 args = [s for s in re.split("[, ]", args) if s]
                 args = [re.sub(r'^"(.*)"$', r'\1', s) for s in args] # remove quotes
